@@ -7,6 +7,12 @@ CHECKS = {
  "C01": dict(technique="differential PBT against an independent reference recogniser (Hypothesis grammar derivation + mutation + soup)",
              text="Generated-input search: every text is parsed through all entry points/flag combinations and compared with a reference recogniser written from the June-2018 grammar; root-cause bucketing; the named deep-nesting case is probed once.",
              note="Trusted: vlib/ref/parser.py (self-checked against committed goldens), the UNSPEC zones listed in DESIGN.md 2.1.", ref="3/C01"),
+ "C02": dict(technique="differential PBT: library tree vs reference parser tree, span equality, reparse law",
+             text="Generated accepted texts are parsed under all flag combinations; the library tree (by slot walk and by to_dict) must equal the reference parser's tree including decoded string/number values and every node span; text[s:e] of every definition/value/type node must parse back to an equal node.",
+             note="Trusted: vlib/ref/parser.py incl. BlockStringValue (goldens); acceptance itself is C01's subject.", ref="3/C02"),
+ "C03": dict(technique="round-trip PBT print->parse with reference-parser explanation of differences; determinism and fixpoint",
+             text="Generated accepted documents and values are printed with 14 indent settings through print_ast and ASTPrinter; printed text must be accepted, parse to an equal tree (modulo positions and description block flag), print deterministically and be a fixpoint.",
+             note="Trusted: tree comparison walker; reference parser only used to attribute a difference to printer vs parser.", ref="3/C03"),
 }
 ALL = ["C%02d" % i for i in range(1, 21)]
 NA_REASON = "check not built yet (work in progress; see DESIGN.md section 3 for the planned design)"
